@@ -4,6 +4,8 @@ import HpxVerif.Lemmas.BmocNot
 import HpxVerif.Lemmas.BmocXor3
 import HpxVerif.Lemmas.BmocOr2
 
+set_option autoImplicit false   -- an unknown identifier in a statement is an error, never a new variable
+
 /-!
 # C08 — BMOC operators follow the documented three-valued semantics with partial flags
 
